@@ -374,6 +374,16 @@ func sameShape(a tensor.Shape, b []int) bool {
 // AssertTensor: got is non-nil, has shape wantShape, the element type of the
 // slice `want`, and its elements in row-major order equal want.
 func (v *T) AssertTensor(label string, got tensor.Tensor, wantShape []int, want interface{}) {
+	v.assertTensor(label, got, wantShape, want, false)
+}
+
+// AssertTensorNum is AssertTensor with numeric equality on floats: -0 equals +0
+// (NaN still only equals NaN).
+func (v *T) AssertTensorNum(label string, got tensor.Tensor, wantShape []int, want interface{}) {
+	v.assertTensor(label, got, wantShape, want, true)
+}
+
+func (v *T) assertTensor(label string, got tensor.Tensor, wantShape []int, want interface{}, numeric bool) {
 	v.Reach = append(v.Reach, label)
 	if got == nil || reflect.ValueOf(got).IsNil() {
 		v.Fails = append(v.Fails, label)
@@ -390,7 +400,20 @@ func (v *T) AssertTensor(label string, got tensor.Tensor, wantShape []int, want 
 		return
 	}
 	for i, x := range data {
-		if !v.sameScalar(x, wv.Index(i).Interface()) {
+		w := wv.Index(i).Interface()
+		if numeric {
+			if fx, ok := x.(float32); ok {
+				if fw, ok := w.(float32); ok && fx == fw {
+					continue
+				}
+			}
+			if fx, ok := x.(float64); ok {
+				if fw, ok := w.(float64); ok && fx == fw {
+					continue
+				}
+			}
+		}
+		if !v.sameScalar(x, w) {
 			v.Fails = append(v.Fails, label)
 			return
 		}
